@@ -205,7 +205,8 @@ def _trivial_cases(part):
                                    {"kind": "none"})
                     continue
                 if ret is not None or port.write_attempts:
-                    part.violation(f"none:{kind}", f"{kind}({use_port!r}) returned {ret!r}, "
+                    which = "port=None" if use_port[0] is None else "text=None"
+                    part.violation(f"none:{kind}", f"{kind} with {which} returned {ret!r}, "
                                    f"writes {port.write_attempts!r}", {"kind": "none"})
                 part.count("trivial_cases")
 
@@ -227,6 +228,13 @@ def run(ctx):
     else:
         for trio in itertools.product(SEQ3_ALPHABET[:5], repeat=3):
             jobs.append((tuple(t + (True,) for t in trio), 2, "seq"))
+    # long sessions: dozens of requests on one port (a counter, a buffer, a drift that only
+    # shows after many exchanges), every single deviation at every point of the session
+    steady = [op for op in ALPHABET if op[1].strip() != "RB"]
+    for length, offset in ((40, 0), (61, 5)) + (((150, 3),) if ctx.thorough else ()):
+        session = tuple(steady[(offset + 7 * k) % len(steady)] + (k % 2 == 0,)
+                        for k in range(length))
+        jobs.append((session, 1, "seq"))
     # seed: rotate job order only (all jobs are always run)
     part = core.fan_out(ctx, _explore_history, jobs)
     _trivial_cases(part)
@@ -241,7 +249,8 @@ def run(ctx):
         "evaluations": execs,
         "distinct_nontrivial": part.counters.get("faulted_executions", 0),
         "rule": "every history (1 request x verbose on/off, all ordered pairs, triples over a "
-                "sub-alphabet) x every vector of environment answers with at most the stated "
+                "sub-alphabet, sessions of 40 and 61 (150) requests with one deviation anywhere) x "
+                "every vector of environment answers with at most the stated "
                 "number of deviations; non-trivial = execution with at least one deviation "
                 "(empty reads, silence, error line, raised exception); each (history, vector) "
                 "is distinct by construction",
